@@ -913,7 +913,8 @@ class RemoteStreamFlowPath(
             if not isinstance(data, str):
                 raise TypeError("data must be str, not %s" % data.__class__.__name__)
             async with await self.connector.get_stream_writer(
-                command=["tee", str(self), ">", "/dev/null"], location=self.location
+                command=["tee", shlex.quote(str(self)), ">", "/dev/null"],
+                location=self.location,
             ) as writer:
                 reader = io.BytesIO(data.encode("utf-8"))
                 while content := reader.read(self.connector.transferBufferSize):
